@@ -234,6 +234,27 @@ func cmdCheck(args []string) int {
 		}(o)
 	}
 	wg.Wait()
+	// A claimed obligation that only ran out of time is retried once with three times the
+	// budget before it is reported: undecided is not the same as violated.
+	var retry []*Obligation
+	for _, o := range todo {
+		if claimed[o.Name] && (o.Result == "timeout" || o.Result == "unknown") {
+			retry = append(retry, o)
+		}
+	}
+	for _, o := range retry {
+		wg.Add(1)
+		go func(o *Obligation) {
+			defer wg.Done()
+			sem <- struct{}{}
+			defer func() { <-sem }()
+			first := o.Secs
+			o.Result = ""
+			solveObligation(o, outDir, timeout*3, seed, false)
+			o.Output = "[retried with 3x timeout after " + fmtSecs(first) + "] " + o.Output
+		}(o)
+	}
+	wg.Wait()
 	solveSecs := time.Since(ts).Seconds()
 
 	// verdicts
